@@ -39,7 +39,7 @@ def cases(draw):
     def fplan():
         return [[draw(st.sampled_from(kinds)), draw(st.integers(0, 8))] for _ in range(nserv)]
     seg = draw(st.sampled_from([8, 16, 64]))
-    return {"threads": draw(st.sampled_from(["sync", "async"])), "fmt": draw(st.sampled_from(["sdmf", "mdmf"])), "k": k, "n": n, "seg": seg, "size": draw(st.integers(0, 5 * seg)),
+    return {"hsalt": draw(st.integers(0, 15)), "threads": draw(st.sampled_from(["sync", "async"])), "fmt": draw(st.sampled_from(["sdmf", "mdmf"])), "k": k, "n": n, "seg": seg, "size": draw(st.integers(0, 5 * seg)),
             "planA": draw(st.one_of(st.none(), st.just(0).map(lambda _: fplan()))), "planB": fplan(),
             "op": draw(st.sampled_from(["overwrite", "update", "update-append"])), "size2": draw(st.integers(1, 3 * seg)),
             "sched": draw(st.lists(st.integers(0, 9), max_size=draw(st.sampled_from([0, 40, 200]))))}
